@@ -26,8 +26,12 @@ IsNum(q) == q[2] # 0
 Zero     == <<0, 1>>
 One      == <<1, 1>>
 
+\* TLC passes operator arguments by name; Eager* bind them to evaluated values first
+Eager1(F(_), A)       == CHOOSE r \in {F(a) : a \in {A}} : TRUE
+Eager2(F(_, _), A, B) == CHOOSE r \in {F(p[1], p[2]) : p \in {<<A, B>>}} : TRUE
+
 \* a + b with the least common denominator
-CAdd(a, b) ==
+CAddV(a, b) ==
   IF ~IsNum(a) \/ ~IsNum(b) THEN NaN
   ELSE LET g == Gcd(a[2], b[2])
            s == a[2] \div g
@@ -37,10 +41,12 @@ CAdd(a, b) ==
                      v == b[1] * s
                  IN IF AddFits(u, v) THEN Norm(u + v, a[2] * t) ELSE NaN
             ELSE NaN
-CNeg(a)    == IF IsNum(a) THEN QNeg(a) ELSE NaN
+CAdd(a0, b0) == Eager2(CAddV, a0, b0)
+CNegV(a)   == IF IsNum(a) THEN QNeg(a) ELSE NaN
+CNeg(a0)   == Eager1(CNegV, a0)
 CSub(a, b) == CAdd(a, CNeg(b))
 \* a * b with cross cancellation before multiplying
-CMul(a, b) ==
+CMulV(a, b) ==
   IF ~IsNum(a) \/ ~IsNum(b) THEN NaN
   ELSE IF a[1] = 0 \/ b[1] = 0 THEN Zero
   ELSE LET g1 == Gcd(a[1], b[2])
@@ -50,8 +56,10 @@ CMul(a, b) ==
            d1 == a[2] \div g2
            d2 == b[2] \div g1
        IN IF MulFits(n1, n2) /\ MulFits(d1, d2) THEN Norm(n1 * n2, d1 * d2) ELSE NaN
-CInv(a)    == IF ~IsNum(a) \/ a[1] = 0 THEN NaN
+CMul(a0, b0) == Eager2(CMulV, a0, b0)
+CInvV(a)   == IF ~IsNum(a) \/ a[1] = 0 THEN NaN
               ELSE IF a[1] < 0 THEN <<-a[2], -a[1]>> ELSE <<a[2], a[1]>>
+CInv(a0)   == Eager1(CInvV, a0)
 CDiv(a, b) == CMul(a, CInv(b))
 \* comparisons (only meaningful on numbers; products are guarded)
 CCmpOk(a, b) == IsNum(a) /\ IsNum(b) /\ MulFits(a[1], b[2]) /\ MulFits(b[1], a[2])
@@ -73,13 +81,19 @@ Vec(r, Op(_))       == TLCEval([i \in 1..r |-> Op(i)])
 QM(A) == Mat(Len(A), Len(A[1]), LAMBDA i, j : Q(A[i][j]))      \* integer matrix -> rational
 QV(v) == Vec(Len(v), LAMBDA i : Q(v[i]))
 
-MT(A)      == Mat(NCols(A), NRows(A), LAMBDA i, j : A[j][i])
-MAdd(A, B) == Mat(NRows(A), NCols(A), LAMBDA i, j : CAdd(A[i][j], B[i][j]))
-MSub(A, B) == Mat(NRows(A), NCols(A), LAMBDA i, j : CSub(A[i][j], B[i][j]))
-MScale(q, A) == Mat(NRows(A), NCols(A), LAMBDA i, j : CMul(q, A[i][j]))
-MMul(A, B) == Mat(NRows(A), NCols(B),
+MTV(A)      == Mat(NCols(A), NRows(A), LAMBDA i, j : A[j][i])
+MT(A0) == Eager1(MTV, A0)
+MAddV(A, B) == Mat(NRows(A), NCols(A), LAMBDA i, j : CAdd(A[i][j], B[i][j]))
+MAdd(A0, B0) == Eager2(MAddV, A0, B0)
+MSubV(A, B) == Mat(NRows(A), NCols(A), LAMBDA i, j : CSub(A[i][j], B[i][j]))
+MSub(A0, B0) == Eager2(MSubV, A0, B0)
+MScaleV(q, A) == Mat(NRows(A), NCols(A), LAMBDA i, j : CMul(q, A[i][j]))
+MScale(q0, A0) == Eager2(MScaleV, q0, A0)
+MMulV(A, B) == Mat(NRows(A), NCols(B),
                   LAMBDA i, j : DotK(A[i], [k \in 1..NRows(B) |-> B[k][j]], NRows(B)))
-MVec(A, v) == Vec(NRows(A), LAMBDA i : DotK(A[i], v, Len(v)))
+MMul(A0, B0) == Eager2(MMulV, A0, B0)
+MVecV(A, v) == Vec(NRows(A), LAMBDA i : DotK(A[i], v, Len(v)))
+MVec(A0, v0) == Eager2(MVecV, A0, v0)
 VAdd(u, v) == Vec(Len(u), LAMBDA i : CAdd(u[i], v[i]))
 VSub(u, v) == Vec(Len(u), LAMBDA i : CSub(u[i], v[i]))
 Ident(n)   == Mat(n, n, LAMBDA i, j : IF i = j THEN One ELSE Zero)
@@ -104,7 +118,8 @@ SubDet(A, ix) ==
              g == A[ix[3]][ix[1]]  h == A[ix[3]][ix[2]]  k == A[ix[3]][ix[3]]
          IN CAdd(CSub(CMul(a, Det2of(e, f, h, k)), CMul(b, Det2of(d, f, g, k))),
                  CMul(c, Det2of(d, e, g, h)))
-Det(A) == SubDet(A, [i \in 1..NRows(A) |-> i])
+DetV(A) == SubDet(A, [i \in 1..NRows(A) |-> i])
+Det(A0) == Eager1(DetV, A0)
 
 \* all principal index tuples of an n x n matrix, n <= 3
 PrincipalSets(n) ==
@@ -126,9 +141,11 @@ Minor(A, i, j) ==      \* determinant of A without row i and column j
   LET n == NRows(A)  r == Others(n, i)  c == Others(n, j)
   IN IF n = 2 THEN A[r[1]][c[1]]
      ELSE Det2of(A[r[1]][c[1]], A[r[1]][c[2]], A[r[2]][c[1]], A[r[2]][c[2]])
-Adj(A) == IF NRows(A) = 1 THEN <<<<One>>>>
+AdjV(A) == IF NRows(A) = 1 THEN <<<<One>>>>
           ELSE Mat(NRows(A), NRows(A), LAMBDA i, j : CMul(Sgn(i, j), Minor(A, j, i)))
-MInv(A) == MScale(CInv(Det(A)), Adj(A))
+Adj(A0) == Eager1(AdjV, A0)
+MInvV(A) == MScale(CInv(Det(A)), Adj(A))
+MInv(A0) == Eager1(MInvV, A0)
 
 \* block diagonal / stacking of a sequence of matrices
 RECURSIVE SumDims(_, _)
